@@ -514,7 +514,7 @@ func init() {
 			return
 		},
 		Floors: func(tier string) map[string]int64 {
-			return map[string]int64{"executions": 5000}
+			return map[string]int64{"executions": 3000}
 		},
 	})
 	Register(&Prop{
